@@ -223,6 +223,11 @@ func sensitivity(c *Ctx, p *Property) bool {
 			allOK = false
 			fmt.Printf("SELF-TEST: mutant %q (%s) %s\n", r.m.Name, r.m.File, r.status)
 		}
+		if strings.HasPrefix(r.status, "skipped") {
+			// not a failure (the tree under analysis may differ from the one the mutant was written for), but on the
+			// unchanged tree every registered mutant should apply: the line makes a stale mutant visible
+			fmt.Printf("SELF-TEST-NOTE: mutant %q (%s) %s\n", r.m.Name, r.m.File, r.status)
+		}
 		if r.status == "detected" {
 			det++
 		}
